@@ -103,7 +103,31 @@ fn main() {
         start: Instant::now(),
         scratch,
     };
-    monitor(&mut cx);
+    // The monitor - and with it every call into the library - runs on a thread
+    // with Rust's default stack size for spawned threads (2 MiB), not on the
+    // main thread's 8 MiB: a library is routinely called from worker threads,
+    // and recursion whose depth grows with the input shows four times earlier.
+    // A stack overflow ends the process with SIGABRT; the driver attributes it
+    // to the case whose number was published last.
+    let stack = std::env::var("PVH_STACK_KIB").ok().and_then(|s| s.parse::<usize>().ok()).unwrap_or(2048) * 1024;
+    let cx = if cfg!(miri) {
+        monitor(&mut cx);
+        cx
+    } else {
+        std::thread::Builder::new()
+            .name("monitor".into())
+            .stack_size(stack)
+            .spawn(move || {
+                monitor(&mut cx);
+                cx
+            })
+            .expect("pvh: cannot start the monitor thread")
+            .join()
+            .unwrap_or_else(|_| {
+                eprintln!("pvh: the monitor thread panicked outside a case");
+                std::process::exit(101);
+            })
+    };
     let js = cx.to_json();
     if let Err(e) = std::fs::write(&out, js) {
         eprintln!("pvh: cannot write {out:?}: {e}");
